@@ -22,6 +22,7 @@ WORKLOADS = {
     "c05": _lazy("harvest", "run_c05"),
     "c15": _lazy("sampler", "run_c15"),
     "c06": _lazy("twin", "run_c06"),
+    "c16": _lazy("cluster", "run_c16"),
 }
 
 REAL_VS_STUB = {
@@ -42,7 +43,7 @@ NOT_APPLICABLE = {
     
  
     
-    "C16": UNDER_CONSTRUCTION,
+    
     "C02": "pure function of (cases, combos, fn): enumeration and placeholder shape contain no schedule, "
            "clock, I/O or fault; executor reordering is C01's subject. Not a simulation target.",
     "C03": "labelling a finished result list into a Dataset/DataFrame is a pure transformation; shuffle is a "
@@ -274,6 +275,29 @@ PROPS = {
             "rule": "each run draws the farmer kind and description, a sweep of <= 16 settings in <= 6 batches, a "
                     "grow partition and reload pattern; non-trivial = every run; distinct = distinct (farmer, result "
                     "kind, N, batches, api, description, rounds, to_df, overwrite).",
+        },
+    },
+    "C16": {
+        "workload": "c16", "level": "exploration",
+        "quick": 320, "thorough": 6000,
+        "shrink_execs": 40, "shrink_wall": 240,
+        "technique": "deterministic simulation of the cluster scheduler only: generated SGE/PBS/SLURM scripts are "
+                     "checked with bash -n and executed as real bash/python child processes, one per array index, in "
+                     "a seeded order with duplicated and pre-empted-then-requeued tasks; the xyzpy-grow CLI likewise; "
+                     "call-log, directory-diff and reference-model oracles",
+        "level_text": "Seeded exploration over scheduler x mode (array / single / CLI) x crop state (no results, some "
+                      "results, explicit batch_ids of length 1..B) x resource-option spellings x crops of 1-8 batches. "
+                      "Every script must pass bash -n, every child must finish without a Python or shell error, each "
+                      "array task must write exactly its batch's result and evaluate exactly its settings, the header "
+                      "range must have exactly len(ids) tasks, and afterwards progress must be exact and the reap equal "
+                      "to the reference. Weakest fit for the technique: children are real processes run one at a time, "
+                      "no fault is injected inside a child (C10/C11 cover kills and interleavings of grow itself).",
+        "level_note": "Stubbed: the scheduler (qsub/sbatch), conda activation (conda_env=False), launcher = the venv "
+                      "python. Real: bash, python, xyzpy, loky when num_workers is given.",
+        "evidence": {
+            "rule": "each run sows a crop of 1-8 batches, puts it into one of three states, generates one script (or "
+                    "uses the CLI) with seeded options and runs its tasks under the stub scheduler; non-trivial = every "
+                    "run (at least one child process); distinct = distinct (batches, state, mode, options, targets).",
         },
     },
 }
